@@ -137,7 +137,7 @@ def tables : Json :=
     ("listDir", jPairs listDir), ("dictDir", jPairs dictDir),
     ("listMutators", jStrs (LM.all.map LM.pyName)), ("dictMutators", jStrs (DM.all.map DM.pyName)),
     ("listOv", jStrs (t.listOv.map LM.pyName)), ("dictOv", jStrs (t.dictOv.map DM.pyName)), ("arrOv", jStrs (t.arrOv.map LM.pyName)),
-    ("tupleMode", .str (match t.tupleMode with | .leave => "leave" | .items => "items" | .list => "list")), ("notifyOnError", .bool t.notifyOnError), ("rebinds", .bool t.rebinds), ("assignRebinds", .bool t.assignRebinds),
+    ("tupleMode", .str (match t.tupleMode with | .leave => "leave" | .items => "items" | .list => "list")), ("notifyOnError", .bool t.notifyOnError), ("refusesFirst", .bool t.refusesFirst), ("rebinds", .bool t.rebinds), ("assignRebinds", .bool t.assignRebinds),
     ("iterUnwrapped", jPairs (t.iterUnwrapped.map fun p => (imName p.1, ikName p.2))),
     ("listNotify", jStrs (PonyVerif.Gen.TrackedTable.listNotify.map LM.pyName)),
     ("dictNotify", jStrs (PonyVerif.Gen.TrackedTable.dictNotify.map DM.pyName)),
